@@ -78,10 +78,12 @@ Definition res_eqb (r : res (list (option Z))) (obs : list (option Z)) : bool :=
 
 Definition memz (x : Z) (l : list Z) : bool := existsb (Z.eqb x) l.
 
-(** placed jobs of the model's allocate loop when the oracle places exactly the
-    observed set (within-leaf order does not depend on the queue order function) *)
-Definition al_model_order (qs : list qinfo) (jobs : list job) (order : list Z) : res (list job) :=
-  r <- allocate qs h_qord (-1) (fun j (c : unit) => if memz (j_uid j) order then Some (c, None) else None)
+(** placed jobs of the model's allocate loop, with the observed queue depth, when
+    the oracle places exactly the observed set (within-leaf order does not depend
+    on the queue order function; which jobs a bounded leaf queue keeps does not
+    depend on the order in which the jobs are pushed: C16_leaf_queue_keeps_d_best) *)
+Definition al_model_order (qs : list qinfo) (depth : Z) (jobs : list job) (order : list Z) : res (list job) :=
+  r <- allocate qs h_qord depth (fun j (c : unit) => if memz (j_uid j) order then Some (c, None) else None)
                 (S (List.length jobs)) jobs tt ;;
   Ok (map fst (filter snd r)).
 
@@ -99,12 +101,10 @@ Definition model_agrees (k : case) : bool :=
   | CPQ max ops obs => res_eqb (pq_run max [] ops) obs
   | CJO qs depth ops obs => res_eqb (jo_run qs depth jo_empty ops) obs
   | CAL qs depth jobs order =>
-      if depth =? -1 then
-        match al_model_order qs jobs order with
-        | Ok m => per_leaf_agree qs jobs m order
-        | _ => false
-        end
-      else true   (* which jobs a finite queue keeps depends on Go's map iteration order *)
+      match al_model_order qs depth jobs order with
+      | Ok m => per_leaf_agree qs jobs m order
+      | _ => false
+      end
   end.
 
 (** ** the property evaluated on what the real code returned *)
